@@ -59,7 +59,7 @@ impl Oracle for C05 {
                         }
                     }
                     // a commit that puts another member's identity on the author's leaf is refused
-                    let self_victim = pe.desc.ends_with(&format!("victim=n{}", pe.creator));
+                    let self_victim = !pe.desc.contains("identity_change_malformed") && pe.desc.ends_with(&format!("victim=n{}", pe.creator));
                     if pe.desc.contains("identity_change") && node != pe.creator && !self_victim {
                         w.probe("identity_change_commit_delivered");
                         if !is_refusal(&rec.class) && rec.pre_state.get(&pe.g) != rec.post_state.get(&pe.g) {
